@@ -515,6 +515,10 @@ def malformed_case(rng, combo, pick):
         c["circ"]["ops"] = [o for o in c["circ"]["ops"] if o[0] != "measure"]
     nq = n + pick("more", [1, 2]) if nqm == "more" else n
     c["nqubit"] = V("int", v=nq)
+    if rng.random() < 0.6:
+        # the circuit's register has idle wires (as a transpiled circuit has): what counts is the number of qubits the circuit USES,
+        # not the number of wires - a requested size between the two is "more qubits than the circuit uses"
+        c["circ"]["nreg"] = max(nq, n) + rng.choice([0, 1, 3])
     if sh == "below": c["shots"] = copy.deepcopy(pick("below", SHOTS_BELOW))
     if sh == "nonint": c["shots"] = copy.deepcopy(pick("nonint", SHOTS_NONINT))
     good = 2 ** nq
